@@ -68,7 +68,10 @@ type ledger struct {
 	yield  int
 	// consWait is the success count the consensus goroutine is parked on (-1: it is acting or gone).
 	consWait int
-	ncalls   atomic.Int64 // every AddItem / Height call (quiescence detection)
+	ncalls   atomic.Int64               // every AddItem / Height call (quiescence detection)
+	gate     atomic.Pointer[heightGate] // harness-owned interleaving: see Height
+	// rejectOnce: AddItem refuses the next-in-order element with this index once (an invalid block from a peer).
+	rejectOnce uint32
 }
 
 var errNotNext = errors.New("block is not the next one")
@@ -81,6 +84,11 @@ func (l *ledger) AddItem(b *qb) error {
 	l.mu.Lock()
 	defer l.mu.Unlock()
 	c := addCall{idx: b.idx, height: l.height}
+	if b.idx == l.rejectOnce && b.idx == l.height+1 {
+		l.rejectOnce = 0
+		l.calls = append(l.calls, c)
+		return fmt.Errorf("block %d does not verify", b.idx)
+	}
 	if b.idx == l.height+1 {
 		l.height++
 		l.succ++
@@ -103,13 +111,27 @@ func (l *ledger) AddItems(bs ...*qb) error {
 }
 
 func (l *ledger) Height() uint32 {
-	l.ncalls.Add(1)
+	n := l.ncalls.Add(1)
 	if l.yield >= 2 {
 		runtime.Gosched()
 	}
 	l.mu.Lock()
-	defer l.mu.Unlock()
-	return l.height
+	h := l.height
+	l.mu.Unlock()
+	// Harness-owned interleaving (reproductions only): the gated call has read the height; it is held back until
+	// released and then returns that (by now stale) value, exactly like a goroutine descheduled after the read.
+	if g := l.gate.Load(); g != nil && n == g.call {
+		close(g.reached)
+		<-g.release
+	}
+	return h
+}
+
+// heightGate holds back the Height() call with the given ordinal (counted over AddItem and Height calls).
+type heightGate struct {
+	call    int64
+	reached chan struct{}
+	release chan struct{}
 }
 
 func ledInit(l *ledger) { l.cond = sync.NewCond(&l.mu) }
@@ -370,10 +392,11 @@ func checkQCase(c QCase, o *vt.Obs) error {
 			continue
 		}
 		if cl.idx > cl.height+1 {
+			// Run may only hand over the element of index height+1. Anything above is an element of the next lap
+			// taken out of its slot after the chain moved: the ledger rejects it, Run drops it, lastQ keeps covering
+			// it and requestBlocks never asks for it again.
 			gapFail++
-			if directN.Load() == 0 {
-				return fmt.Errorf("call %d: the queue offered block %d to a ledger at height %d although nobody but the queue adds blocks (calls: %s)", i, cl.idx, cl.height, fmtCalls(calls, i))
-			}
+			return fmt.Errorf("call %d: the queue offered block %d to a ledger at height %d (calls: %s)", i, cl.idx, cl.height, fmtCalls(calls, i))
 		} else {
 			staleFail++
 		}
@@ -434,9 +457,6 @@ func checkQCase(c QCase, o *vt.Obs) error {
 	}
 	if staleFail > 0 {
 		o.Label("stale-additem")
-	}
-	if gapFail > 0 {
-		o.Label("gap-additem-after-direct")
 	}
 	if c.H0 > 0 {
 		o.Label("h0>0")
